@@ -161,7 +161,13 @@ func VerifRun_C04a() {
 				}
 			}
 			if int(r.Start.Line) != wantLine || int(r.End.Line) != wantLine {
-				verifViolation(c04nonasciiLine(doc, n), "an identifier token after a non-ASCII character is reported on the wrong line")
+				lc := c04nonasciiLine(doc, n)
+				for i := 0; i+1 < n; i++ {
+					if doc[i] == '\n' && doc[i+1] == '\r' {
+						lc = "C04-lfcr" // the line count is already off because of an LF CR pair (its own class)
+					}
+				}
+				verifViolation(lc, "an identifier token after a non-ASCII character is reported on the wrong line")
 				continue
 			}
 		}
